@@ -588,6 +588,7 @@ def run(ctx):
                   'AGREE')
     c13.job_descriptors(ctx, r8)
     c06.rpc_surface(ctx, r8)
+    c06.rpc_params_forwarded_unchanged(ctx, r8)
 
     # ---- R10 termination devices ------------------------------------------------------------
     r10 = ctx.rule('R10', 'task-graph walks end on cyclic definitions',
